@@ -239,6 +239,27 @@ func cmdEntropy(args []string) int {
 			}
 		}
 	}
+	// every residue of the block length modulo the internal chunk size around the small values (the last chunk of a block has 1, 2, 3, ...
+	// bytes: loops unrolled by 2 / 4 / 8 and the raw-copy thresholds of the codecs all live there)
+	chunkOf := map[string]int{"HUFFMAN": 16384, "ANS0": 16384, "RANGE": 32768, "FPAQ": 4 << 20, "ANS1": 4 << 20, "NONE": 16384, "CM": 16384, "TPAQ": 16384, "TPAQX": 16384}
+	for ci, codec := range entropyNames {
+		c := chunkOf[codec]
+		var residues []int
+		switch {
+		case c > 1<<20 && !*thorough:
+			residues = []int{0, 1, 2, 3, 4, 5, 6, 7, 8, 9, 15, 16, 17, 31, 32, 33}
+		case slowEntropy(codec) && !*thorough:
+			residues = []int{1, 2, 3, 4, 5, 7, 8, 9}
+		default:
+			for r := 0; r <= 40; r++ {
+				residues = append(residues, r)
+			}
+			residues = append(residues, 63, 64, 65, 127, 128, 129)
+		}
+		for ri, r := range residues {
+			add(codec, c+r, []string{"text", "skew", "alpha:64"}[(ci+ri)%3], []int{0, 3, 8}[(ci+ri)%3])
+		}
+	}
 	// non-stationary data: the statistics of a part of a chunk differ from those of the whole chunk, for every quarter of the
 	// internal chunk sizes (16 KiB, 32 KiB) and across chunk boundaries
 	for ci, codec := range entropyNames {
